@@ -159,6 +159,34 @@ def gen(depth: int, funcs: list, durs: list[int], hist: list[int],
     return r, hs
 
 
+def gen_states(depth: int, nest: int, durs: list[int],
+               hist: list[int]) -> tuple[Any, list]:
+    """State coverage: one shortest history per distinct (table, stack,
+    clock) state of Tracing.tla, followed by EVERY query in that state."""
+    defs = ('Funcs == {' + ', '.join(
+        f'[id |-> {i}, name |-> "{n}"]' for i, n in FUNCS) + '}\n'
+        f'Durs == {tla(set(durs))}\nHist == {tla(set(hist))}\n'
+        f'MaxNest == {nest}\nMaxDepth == {depth}\n')
+    name = 'MC_TracingS'
+    mod = instantiate('Tracing', name, defs)
+    r = run_tlc(name, cfg_text='SPECIFICATION Spec\nVIEW view\n'
+                'INVARIANT EmitState\nCHECK_DEADLOCK FALSE\n',
+                extra_modules={name: mod}, workers=8, deadlock=False,
+                timeout=1800)
+    hs = []
+    for line in r.stdout.splitlines():
+        if line.startswith('"{'):
+            try:
+                d = json.loads(json.loads(line))
+            except Exception:  # noqa: BLE001
+                continue
+            qs = sorted(d['q'], key=lambda q: (q['avg'], q['k']))
+            hs.append(list(d['h']) + [
+                {'act': 'get', 'f': 0, 'd': q['k'], 'flag': q['avg'],
+                 'exp': q['exp']} for q in qs])
+    return r, hs
+
+
 def main(tier: str, seed: int) -> int:
     v = Verdict(PROP, tier, seed, 'model_checking')
     quick = tier == 'quick'
@@ -182,12 +210,18 @@ def main(tier: str, seed: int) -> int:
     r1, h1 = gen(6, FUNCS, [1, 3], [0, 2], None, seed)
     r2, h2 = gen(14 if quick else 20, FUNCS, [1, 2, 5], [0, 1, 2, 3],
                  10 if quick else 250, seed)
+    r3, h3 = gen_states(12 if quick else 15, 1, [1, 2], [0, 1, 2])
+    r4, h4 = gen_states(10 if quick else 13, 2, [1, 2],
+                        [0, 1, 2] if quick else [0, 1, 2, 3])
     rng = random.Random(seed)
+    if quick and len(h3) + len(h4) > 8000:
+        h3 = rng.sample(h3, min(len(h3), 5000))
+        h4 = rng.sample(h4, min(len(h4), 3000))
     if len(h1) > (6000 if quick else 10 ** 9):
         h1 = rng.sample(h1, 6000)
     if len(h2) > (3000 if quick else 200000):
         h2 = rng.sample(h2, 3000 if quick else 200000)
-    hs = h1 + h2
+    hs = h1 + h2 + h3 + h4
     n = 48
     res = pmap(chunk, [hs[i::n] for i in range(n) if hs[i::n]])
     for lst in res:
@@ -199,7 +233,8 @@ def main(tier: str, seed: int) -> int:
     nontriv = {chash(h) for h in hs
                if any(x['act'] == 'get' and x['exp'] for x in h)}
     v.coverage = {
-        'states': max(rp.distinct + r1.distinct + r2.distinct, 1),
+        'states': max(rp.distinct + r1.distinct + r2.distinct + r3.distinct + r4.distinct, 1),
+        'state_coverage_histories': len(h3) + len(h4),
         'transitions': max(rp.generated + r1.generated + r2.generated, 1),
         'traces_validated_against_impl': len(hs),
         'samples': [[(x['act'], x['f'], x['d'], x['flag']) for x in hs[0]]]
